@@ -11,7 +11,9 @@ e == Log[l]
 TInit == InitRegs /\ l = 2 /\ Log[1].k = "reset"
 IsOsError(r) == Len(r) >= 4 /\ SubSeq(r, 1, 4) = "Err:"
 Allowed(op) ==
-  CASE op \in {"send", "ctxsend"} -> {"ok", "ErrSendTimeout", "ErrClosed", "ErrNoPeers", "ErrProtoOp", "ErrProtoState"}
+  \* (ErrCanceled: a REQ Send still waiting for a connection when a Recv deadline or another Send on the same context
+  \* gives the request up - Req.tla SendWake)
+  CASE op \in {"send", "ctxsend"} -> {"ok", "ErrSendTimeout", "ErrClosed", "ErrNoPeers", "ErrProtoOp", "ErrProtoState", "ErrCanceled"}
     [] op \in {"recv", "ctxrecv"} -> {"ok", "ErrRecvTimeout", "ErrClosed", "ErrNoPeers", "ErrProtoOp", "ErrProtoState", "ErrCanceled"}
     [] op = "opt" -> {"ok", "ErrBadOption", "ErrBadValue"}
     [] op = "openctx" -> {"ok", "ErrProtoOp", "ErrClosed"}
